@@ -202,6 +202,7 @@ func TestVerif_C19Agent(t *testing.T) {
 	r.Require("nothing_configured_probes", 20)
 	r.Require("refused_ipv4_dest_by_ipv6_only_config", 60)
 	r.Require("ipv6_literal_not_permitted", 20)
+	r.Require("rebind_probes_hostile", 15)
 }
 
 func c19aHistory(r *verifkit.R, ci int, rng *verifkit.Rand, sink *kitSink, dns *kitDNS, root string) {
@@ -508,6 +509,106 @@ func c19aHistory(r *verifkit.R, ci int, rng *verifkit.Rand, sink *kitSink, dns *
 		return true
 	}
 
+	// rebind: a host name whose DNS answer changes between queries (see the handler part): first
+	// answer P in a present network, later answer U in none; only one of them listens on the port.
+	rebindN := 0
+	rebind := func() bool {
+		if a.exitHandler == nil || !a.exitHandler.IsRunning() {
+			return true
+		}
+		listed, listedTxt, ok := list()
+		if !ok {
+			return false
+		}
+		nets := append(append([]netip.Prefix{}, static...), listed...)
+		usable := func(x netip.Addr) bool {
+			if !x.Is4() {
+				return false
+			}
+			b := x.As4()
+			return b[0] == 127 && b[3] != 0 && b[3] != 255
+		}
+		var P, U netip.Addr
+		for t := 0; t < 30 && !P.IsValid() && len(nets) > 0; t++ {
+			if x := c19aEdge(nets[rng.Intn(len(nets))], rng); usable(x) && c19aInAny(x, nets) {
+				P = x
+			}
+		}
+		for t := 0; t < 30 && !U.IsValid(); t++ {
+			if x := c19aV4(rng); usable(x) && !c19aInAny(x, nets) {
+				U = x
+			}
+		}
+		if !P.IsValid() || !U.IsValid() {
+			return true
+		}
+		variant := []string{"hostile", "hostile", "hostile", "benign", "reversed"}[rng.Intn(5)]
+		sched, bindAt := []netip.Addr{P, U}, U
+		switch variant {
+		case "benign":
+			bindAt = P
+		case "reversed":
+			sched = []netip.Addr{U, P}
+		}
+		rebindN++
+		name := kitRebindName(fmt.Sprintf("a%dx%d", ci, rebindN), sched...)
+		for _, pat := range patterns {
+			if kitPatternMatch(pat, name) {
+				return true
+			}
+		}
+		ls, err := newKitSinkAt(bindAt)
+		if err != nil {
+			r.Add("rebind_bind_failed", 1)
+			return true
+		}
+		defer ls.Close()
+		streamID++
+		id := streamID
+		open := &protocol.StreamOpen{RequestID: id + 5, AddressType: protocol.AddrTypeDomain, Address: append([]byte{byte(len(name))}, name...), Port: uint16(ls.Port), EphemeralPubKey: eph}
+		st := c19aStep{Op: "probe", Req: name, Type: "domain-name-rebinding-" + variant, Listed: listedTxt}
+		a.handleStreamOpen(peer, &protocol.Frame{Type: protocol.FrameStreamOpen, StreamID: id, Payload: open.Encode()})
+		rp, ok := rec.waitReply(id)
+		if !ok {
+			r.Inconclusive("no reply to an open request within the watchdog")
+			return false
+		}
+		st.Reply = fmt.Sprintf("err %d", rp.ErrCode)
+		if rp.Ack {
+			st.Reply = "ack"
+		}
+		accs, ok := ls.barrier()
+		if !ok {
+			r.Inconclusive("sink barrier failed (watchdog)")
+			return false
+		}
+		a.exitHandler.HandleStreamClose(peer, id)
+		rec.forget(id)
+		r.Add("probes", 1)
+		r.Add("rebind_probes_"+variant, 1)
+		for _, ac := range accs {
+			st.Conn = append(st.Conn, ac.Dest.String())
+		}
+		steps = append(steps, st)
+		for _, ac := range accs {
+			if c19aInAny(ac.Dest, nets) {
+				nConn++
+				r.Add("connected_permitted", 1)
+				r.Add("rebind_connected_to_checked_address", 1)
+				continue
+			}
+			r.Violation("connected-not-permitted:name-rebinding:later-dns-answer-outside-every-network", "hist", ci,
+				fmt.Sprintf("STREAM_OPEN for host name %q (DNS answers in order: %v; only %s listens on port %d) made the exit connect to %s:%d; configured networks %v, dynamic routes %v; A queries answered for the name: %d",
+					name, sched, bindAt, ls.Port, ac.Dest, ls.Port, static, listedTxt, dns.AQueries(name)),
+				map[string]any{"exit_enabled": cfg.Exit.Enabled, "static": cfg.Exit.Routes, "patterns": patterns, "steps": steps})
+		}
+		if len(accs) == 0 {
+			nRef++
+			r.Add("refused_not_permitted", 1)
+		}
+		return true
+	}
+
 	manage := func(action string, p netip.Prefix, metric uint16) {
 		spelled := c19aSpell(p, rng)
 		res, err := a.ManageRoute(action, spelled, metric)
@@ -560,6 +661,12 @@ func c19aHistory(r *verifkit.R, ci int, rng *verifkit.Rand, sink *kitSink, dns *
 			keys = append(keys, kk)
 		}
 		sort.Strings(keys)
+		if rng.Chance(1, 7) {
+			if !rebind() {
+				return
+			}
+			continue
+		}
 		switch c := rng.Intn(20); {
 		case c < 2: // add new
 			manage("add", c19aAnyNet(rng, fam), uint16(rng.Intn(5)))
